@@ -1,6 +1,7 @@
 import L21.Driver.Sexp
 import L21.Model.LefLex
 import L21.Model.LefEnum
+import L21.Model.Lef
 /- Line-protocol glue for the LEF lexer and keyword models. -/
 namespace L21.Driver
 open L21 Sexp
@@ -42,3 +43,99 @@ def opLefDbu (args : List Sexp) : String :=
   | _ => "bad-op"
 
 end L21.Driver
+
+/-! canonical printing of a LEF library (shared format with harness/src/props/lef.rs: `lib_s`) -/
+namespace L21.Driver.LefP
+open L21 L21.Sexp L21.Lef
+
+def sStr (s : Str) : Sexp := ofBytes ((String.ofList s).toUTF8.toList.map (·.toNat))
+def sDec (d : Dec) : Sexp := let n := d.norm; .atom s!"d{n.mant}e{n.scale}"
+def sOpt {α : Type} (f : α → Sexp) : Option α → Sexp
+  | none => .atom "#f"
+  | some a => f a
+def sEnum (s : String) : Sexp := .atom s
+def sPt (p : Pt) : List Sexp := [sDec p.x, sDec p.y]
+def sPts (ps : List Pt) : List Sexp := ps.map fun p => .list (sPt p)
+def sShape : Shape → Sexp
+  | .rect m a b => .list ([.atom "rect", sOpt sDec m] ++ sPt a ++ sPt b)
+  | .polygon m ps => .list ([.atom "poly", sOpt sDec m] ++ sPts ps)
+  | .path m ps => .list ([.atom "path", sOpt sDec m] ++ sPts ps)
+def sGeom : Geometry → Sexp
+  | .shape s => sShape s
+  | .iterate s p => .list [.atom "iter", sShape s, sDec p.numx, sDec p.numy, sDec p.spacex, sDec p.spacey]
+def sLg (l : LayerGeoms) : Sexp :=
+  .list [.atom "lg", sStr l.layerName, sOpt ofBool l.exceptPgNet,
+    sOpt (fun s => match s with | Spacing.spacing d => .list [.atom "sp", sDec d] | .drw d => .list [.atom "drw", sDec d]) l.spacing,
+    sOpt sDec l.width, .list (.atom "geoms" :: l.geometries.map sGeom),
+    .list (.atom "vias" :: l.vias.map fun v => .list ([sStr v.name] ++ sPt v.pt))]
+def sProps (ps : List Prop') : Sexp := .list (.atom "props" :: ps.map fun p => .list [sStr p.name, sStr p.value])
+def sPort (p : Port) : Sexp := .list (.atom "port" :: sOpt sEnum p.cls :: p.layers.map sLg)
+def sPin (p : Pin) : Sexp :=
+  .list [.atom "pin", sStr p.name, sOpt (fun d => .list [.atom "dir", sEnum d.1, ofBool d.2]) p.direction, sOpt sEnum p.use_,
+    sOpt sEnum p.shape, sOpt sEnum p.antennaModel,
+    .list (.atom "ant" :: p.antennaAttrs.map fun a => .list [sStr a.key, sDec a.val, sOpt sStr a.layer]),
+    sOpt sStr p.taperRule, sOpt sStr p.supplySensitivity, sOpt sStr p.groundSensitivity, sOpt sStr p.mustJoin, sOpt sStr p.netExpr,
+    sProps p.properties, .list (.atom "ports" :: p.ports.map sPort)]
+def sMacro (m : Macro) : Sexp :=
+  .list [.atom "macro", sStr m.name, sOpt (fun c => .list [.atom "cls", sEnum c.1, sOpt sEnum c.2.1, ofBool c.2.2]) m.cls,
+    sOpt (fun f => .list [.atom "foreign", sStr f.cell, sOpt (fun p => .list (sPt p)) f.pt, sOpt sEnum f.orient]) m.foreign,
+    sOpt (fun p => .list (sPt p)) m.origin, sOpt (fun s => .list [sDec s.1, sDec s.2]) m.size,
+    sOpt (fun s => .list (s.map sEnum)) m.symmetry, sOpt sStr m.site, sOpt sEnum m.source, sOpt sStr m.eeq, ofBool m.fixedMask,
+    sProps m.properties,
+    sOpt (fun d => .list (.atom "density" :: d.map fun l => .list (.atom "dl" :: sStr l.layerName ::
+      l.rects.map fun r => .list ([.atom "dr"] ++ sPt r.p1 ++ sPt r.p2 ++ [sDec r.value])))) m.density,
+    .list (.atom "obs" :: m.obs.map sLg), .list (.atom "pins" :: m.pins.map sPin)]
+def sViaShape : ViaShape → Sexp
+  | .rect m a b => .list ([.atom "vrect", sOpt sDec m] ++ sPt a ++ sPt b)
+  | .polygon m ps => .list ([.atom "vpoly", sOpt sDec m] ++ sPts ps)
+def d2 (p : Dec × Dec) : Sexp := .list [sDec p.1, sDec p.2]
+def d4 (p : Dec × Dec × Dec × Dec) : Sexp := .list [sDec p.1, sDec p.2.1, sDec p.2.2.1, sDec p.2.2.2]
+def sVia (v : ViaDef) : Sexp :=
+  .list [.atom "via", sStr v.name, ofBool v.isDefault,
+    match v.data with
+    | .fixed r ls => .list (.atom "fixed" :: sOpt sDec r :: ls.map fun l => .list (.atom "vl" :: sStr l.layerName :: l.shapes.map sViaShape))
+    | .generated g => .list [.atom "gen", sStr g.rule, d2 g.cutSize, .list [sStr g.layers.1, sStr g.layers.2.1, sStr g.layers.2.2],
+        d2 g.cutSpacing, d4 g.enclosure, sOpt d2 g.rowcol, sOpt (fun p => .list (sPt p)) g.origin, sOpt d4 g.offset]]
+def sSite (s : Site) : Sexp :=
+  .list [.atom "site", sStr s.name, sEnum s.cls, d2 s.size, sOpt (fun l => .list (l.map sEnum)) s.symmetry]
+def sUnits (u : Units) : Sexp :=
+  .list [.atom "units", sOpt ofInt u.dbu, sOpt sDec u.time, sOpt sDec u.cap, sOpt sDec u.res, sOpt sDec u.power, sOpt sDec u.current,
+    sOpt sDec u.voltage, sOpt sDec u.freq]
+def sPropDef : PropDef → Sexp
+  | .str o n v => .list [.atom "pstr", sEnum o, sStr n, sOpt sStr v]
+  | .real o n v r => .list [.atom "preal", sEnum o, sStr n, sOpt sDec v, sOpt d2 r]
+  | .int o n v r => .list [.atom "pint", sEnum o, sStr n, sOpt sDec v, sOpt d2 r]
+def sChar (c : Char) : Sexp := sStr [c]
+def sLib (l : Lib) : Sexp :=
+  .list [.atom "lib", sOpt sDec l.version, sOpt sEnum l.namesCaseSensitive, sOpt sEnum l.noWireExt,
+    sOpt (fun p => .list [sChar p.1, sChar p.2]) l.busBitChars, sOpt sChar l.dividerChar, sOpt sUnits l.units, ofBool l.fixedMask,
+    sOpt sEnum l.clearance, sOpt sDec l.mfgGrid, sOpt sEnum l.useMinSpacing,
+    .list (.atom "propdefs" :: l.propDefs.map sPropDef),
+    .list (.atom "exts" :: l.extensions.map fun e => .list [sStr e.1, sStr e.2]),
+    .list (.atom "vias" :: l.vias.map sVia), .list (.atom "sites" :: l.sites.map sSite), .list (.atom "macros" :: l.macros.map sMacro)]
+
+/-- number tokens whose decimal reading the model covers: at most 28 fractional digits and a
+    mantissa below 2^96 with all written digits (beyond that rust_decimal rounds; not modelled) -/
+def numberInDomain (t : Str) : Bool :=
+  let body := match t with | '-' :: r => r | '+' :: r => r | r => r
+  let digits := body.filter LefLex.isDigit
+  let frac := (body.dropWhile (· != '.')).filter LefLex.isDigit
+  let m : Nat := digits.foldl (fun acc c => acc * 10 + (c.toNat - '0'.toNat)) 0
+  (body.all fun c => LefLex.isDigit c || c == '.') → (frac.length ≤ 28 && m < 2 ^ 96)
+
+def opLefParse (args : List Sexp) : String :=
+  match args with
+  | [a] => match L21.Driver.utf8Text? a with
+    | none => "bad-op"
+    | some cs =>
+      match Lef.tokens cs with
+      | none => "err"
+      | some ts =>
+        if ts.all (fun t => t.tt != .number || numberInDomain t.txt) then
+          match Lef.parse cs with
+          | some l => s!"ok {sLib l}"
+          | none => "err"
+        else "unsupported"
+  | _ => "bad-op"
+
+end L21.Driver.LefP
